@@ -66,8 +66,8 @@ func newGraph(project *types.Project) (*graph[types.ServiceConfig], error) {
 					}
 					return nil, fmt.Errorf("service %q depends on unknown service %q", name, dep)
 				}
-				delete(s.DependsOn, name)
-				project.Services[name] = s
+				// optional dependency on a service that is not enabled: no edge. The project is
+				// left untouched, it may be walked by several callers at the same time
 				continue
 			}
 			src.children[dep] = dest
